@@ -354,3 +354,35 @@ package engine
 //@   requires typing: global("github.com/uber-go/gopatch/internal/engine.nilMatcher") != nil
 //@   assigns c.dots, elems(c.dots)
 //@   ensures m != nil
+
+// ---- replacers (C03, C05, C08) ------------------------------------------------------------------------
+//
+// A replacer builds a fresh value; the only pre-existing memory it may touch is the AST slot it is
+// asked to fill (FileReplacer) - never the compiled program and never the captured match data.
+
+//@ iface Replacer.Replace(d, cl, pos) (v, err)
+//@   requires d != nil
+//@   assigns group(ast)
+
+//@ func (r ZeroReplacer) Replace(d, cl, pos) (v, err)
+//@   ensures err == nil
+
+//@ func (r ValueReplacer) Replace(d, cl, pos) (v, err)
+//@   ensures [C03] verbatim: err == nil && v == r.Value
+
+//@ func (r PtrReplacer) Replace(d, cl, pos) (v, err)
+//@   requires r.Replacer != nil
+
+//@ func (r InterfaceReplacer) Replace(d, cl, pos) (v, err)
+//@   requires r.Replacer != nil
+
+//@ func (r StructReplacer) Replace(d, cl, pos) (v, err)
+//@   requires forall i int {r.Fields[i]} :: 0 <= i && i < len(r.Fields) ==> r.Fields[i] != nil
+
+//@ func (r SliceReplacer) Replace(d, cl, pos) (v, err)
+//@   requires forall i int {r.Items[i]} :: 0 <= i && i < len(r.Items) ==> r.Items[i] != nil
+
+// setValue is the only place a replacer writes a generated value; it refuses ill-typed values.
+//@ func setValue(dst, src) (err)
+//@   assigns group(ast)
+//@   ensures [C03,C08] ill-typed-is-an-error: !tassignable(rtype(src), rtype(dst)) ==> err != nil
